@@ -65,6 +65,10 @@ checks = [
   "stateless model checking of the source-instrumented encoding/osm package under a controlled cooperative scheduler: DFS over all schedules within a preemption / deviation bound, each execution compared with a sequential least-fixpoint model",
   "Every schedule of the real extract() worker pool with at most 1 (quick) / 2 (thorough) preemptions, respectively 2 / 3 deviations from the canonical scheduler, on every small document order (sequential tier, all element orders) and on ten sharp documents with 2 and 3 workers x three keep functions is executed and must yield exactly the least fixpoint and pass Check; Filter is explored over map-iteration orders. Complete within those bounds; larger documents, more workers and more preemptions are outside.",
   "Trusts the shim's model of Mutex/RWMutex (writer preference)/buffered channel/errgroup (mc/vrt) and the 1:1 rewrite by instr/; the free-running package's outcome must be among the explored outcomes; data races below lock granularity are not modelled.", "3"),
+ ("C19", MC, "E2+E3",
+  "explicit-state BFS over AddLink histories of the real Network (successor = replay on a fresh instance, dedup by link set + node-id assignment) with a Floyd-Warshall oracle for all query pairs in every state; map-iteration orders of the instrumented package explored as environment choices",
+  "All histories of up to 5 (7) AddLink calls over 10 candidate links between 5 nodes are explored; in every distinct state and for both minimisation options all 49 ordered query pairs are answered by the real ShortestRoute and compared with Floyd-Warshall (minimal cost, valid chain, totals, emptiness); for small states every query is repeated under every map-iteration order with at most one deviation.",
+  "Dedup assumes the R-tree's answer to a unique-nearest query does not depend on insertion order (queries with tied nearest nodes are skipped); networks with more than 5 nodes or parallel links are outside.", "4/C19"),
 ]
 not_applicable = [
 ]
@@ -81,6 +85,7 @@ man = {
  "engines": [
   {"name": "E1", "path": "mc/enum, mc/geomgen, mc/exact", "kind_free_text": "bounded-exhaustive input enumeration on the real API against a reference model"},
   {"name": "E2", "path": "mc/bfs", "kind_free_text": "explicit-state breadth-first search over real objects with canonical-state deduplication"},
+  {"name": "E2+E3", "path": "checks/c19, mc/sched, mc/vrt, instr", "kind_free_text": "explicit-state search over operation histories combined with environment-choice exploration"},
   {"name": "E3", "path": "mc/sched, mc/vrt, instr", "kind_free_text": "controlled cooperative scheduler + preemption-bounded DFS over source-instrumented packages"},
   {"name": "E4", "path": "mc/fault", "kind_free_text": "exhaustive single-fault enumeration over valid encodings with isolated worker"},
  ],
